@@ -32,7 +32,7 @@ SubstrateOps(T) ==
     \cup {[op |-> "AddStorage", n |-> n, name |-> "st1"] : n \in Nodes(T)}
     \cup {[op |-> "AddNodeService", n |-> n, name |-> "ns1", nstype |-> t] : n \in Nodes(T), t \in {"MPLS", "VLAN"}}
     \* caller-supplied ids that collide across classes
-    \cup {[op |-> "AddNode", name |-> "n2", site |-> "S1", ntype |-> "Server", rp |-> <<>>, cid |-> "X"]}
+    \cup {[op |-> "AddNode", name |-> "n3", site |-> "S1", ntype |-> "Server", rp |-> <<>>, cid |-> "X"]}
     \cup {[op |-> "AddNodeService", n |-> n, name |-> "ns2", nstype |-> "MPLS", cid |-> "X"] : n \in Nodes(T)}
     \cup {[op |-> "RemoveNodeService", n |-> n, name |-> "ns1"] : n \in Nodes(T)}
     \cup {[op |-> "AddInterface", s |-> s, name |-> i, itype |-> "TrunkPort"] : s \in NodeSvcs(T), i \in {"i1", "i2", "!x"}}
